@@ -70,10 +70,23 @@ main(void)
 	while ((line = drv_getline()) != NULL) {
 		int n = drv_split(line, tok, 8);
 
-		if (n == 1 && strcmp(tok[0], "which") == 0) {
+		if (n == 1 && (strcmp(tok[0], "which") == 0 || strcmp(tok[0], "tables") == 0)) {
+			/* CRC32C_Init runs init(), whose assert may fire */
 			CRC32C_CTX ctx;
+			int aborted = 0;
 
-			CRC32C_Init(&ctx);
+			abort_armed = 1;
+			if (sigsetjmp(abort_env, 1) == 0)
+				CRC32C_Init(&ctx);
+			else
+				aborted = 1;
+			abort_armed = 0;
+			if (aborted) {
+				printf("assert\n");
+				continue;
+			}
+		}
+		if (n == 1 && strcmp(tok[0], "which") == 0) {
 #ifdef HWACCEL
 			if (hwaccel == HW_SOFTWARE)
 				printf("hw=software\n");
@@ -91,10 +104,8 @@ main(void)
 			printf("hw=software\n");
 #endif
 		} else if (n == 1 && strcmp(tok[0], "tables") == 0) {
-			CRC32C_CTX ctx;
 			size_t i;
 
-			CRC32C_Init(&ctx);
 			printf("ok ");
 			for (i = 0; i < 256; i++) printf("%08x", (unsigned)T0[i]);
 			for (i = 0; i < 256; i++) printf("%08x", (unsigned)T1[i]);
